@@ -38,6 +38,10 @@ CHECKS = {
          "Exploration: every operation history up to length 8 (quick) / 10 (thorough) is enumerated and longer random histories are sampled; each step is compared with the naive model of the statement. Bounded-exhaustive plus sampled, not a proof.",
          "Trusts the 40-line reference model in harness/pv/src/c11.rs and that element identity = step index suffices to detect mix-ups.",
          "DESIGN.md section 4, C11"),
+ "C16": ("exhaustive enumeration of all Unicode scalar values x all advertised property names: partition/union/disjointness laws and three-way agreement (function, by_name, VM built-in)",
+         "Exploration, exhaustive over the finite domain for the function/by_name paths and the category laws (exhaustive: true); the VM path is exhaustive in the thorough tier and covers all boundary scalars +-1 and every 61st scalar in the quick tier.",
+         "Group membership table written from UAX #44 in the harness; says nothing about whether the tables match a particular Unicode version. The derive path is covered by C02.",
+         "DESIGN.md section 4, C16"),
 }
 NA_REASON = "check not built yet (work in progress; see DESIGN.md section 9 build order)"
 
